@@ -1,10 +1,11 @@
 SPECIFICATION Spec
 CONSTANTS Acct <- AcctC
- KindsOf <- KindsNeg
+ KindsOf <- @KINDS@
  BaseSet <- BaseNeg
  MaxSteps = 7
  MaxSnap = 2
+ WithSeal = TRUE
  FreeVals = FALSE
  Dv = {"@DEV@"}
-INVARIANTS UndoMatchesSaved NoPanic RevsOK DiscardAllIsBase
+INVARIANTS UndoMatchesSaved NoPanic RevsOK DiscardAllIsBase RedoEqualsExec
 CHECK_DEADLOCK FALSE
